@@ -37,7 +37,7 @@ def insertNat (n : Nat) : List Nat → List Nat
 def sortNats (l : List Nat) : List Nat := l.foldr insertNat []
 
 def renderRequired (ir : IRQuery) : String :=
-  "(req" ++ String.join ((sortNats (allVids ir)).map fun vid =>
+  "(req" ++ String.join ((sortNats (IRQuery.allVids ir)).map fun vid =>
     s!" ({vid}" ++ String.join ((requiredProps ir vid).map fun p => " " ++ p) ++ ")") ++ ")"
 
 def insertName (n : Name) : List Name → List Name
